@@ -40,6 +40,23 @@ def vectors(ctx, lane="P"):
                 V.append({"fn": "adsb.altitude", "frame": f, "code": fld, "tc": tc})
                 if rep == 0:
                     V.append({"fn": "adsb.altitude05", "frame": f, "code": fld, "tc": tc})
+    # sparse backgrounds: the rest of the ME field all zero except one or two bits (every single bit, every pair), for a few
+    # altitude fields and every airborne type code - "round" values of the neighbouring fields (a flag plus a power of two)
+    import itertools
+    rest = [b for b in range(38, 89) if not 41 <= b <= 52]          # frame bits 38..88 outside the altitude field
+    pats = [(b,) for b in rest] + list(itertools.combinations(rest, 2))
+    for tc in list(range(9, 19)) + [20, 21, 22]:
+        for k, pat in enumerate(pats):
+            if ctx.quick and (k + tc) % 3:
+                continue
+            fld = rng.choice([0x001, 0x015, 0x7FF, 0xC38, 0xFFF, rng.randrange(4096)])
+            f = gen.rand_frame_df(rng, 17)
+            f = gen.set_bits(f, 33, 88, 0)
+            f = gen.set_bits(f, 33, 37, tc)
+            for b in pat:
+                f = gen.set_bits(f, b, b, 1)
+            f = gen.set_bits(f, 41, 52, fld)
+            V.append({"fn": "adsb.altitude", "frame": f, "code": fld, "tc": tc})
     for tc in range(32):
         for _ in range(ctx.pick(4, 40)):
             for df in (17, 18, 17, 20, 4, 11):
